@@ -550,7 +550,11 @@ pub fn build_world(cfg: &Cfg) -> SimWorld {
     let spawn_main = |app: &mut App| -> Entity {
         let component = component.clone();
         let mut animator: Animator<Target> = if cfg.selector {
-            Animator::new()
+            if cfg.initial_key % 2 == 0 {
+                Animator::new()
+            } else {
+                Animator::default()
+            }
         } else {
             match cfg.initial_tl {
                 Some(i) => {
@@ -579,13 +583,30 @@ pub fn build_world(cfg: &Cfg) -> SimWorld {
                     }
                 }
             }
-            e.insert(b.build());
+            if cfg.keys.len() == 4 {
+                // the plain constructor instead of the builder
+                let built = b.build();
+                e.insert(AnimationSelector::<Key, Target>::new(built.timelines, built.timeline_key));
+            } else {
+                e.insert(b.build());
+            }
             if let Some(pairs) = &cfg.chain {
-                let mut cb = AnimationChainBuilder::<Key>::new();
-                for (from, to) in pairs {
-                    cb = cb.add(*from, *to);
+                // every public way of building a chain is used, depending on its shape
+                if pairs.len() == 1 && pairs[0].1 == Key::default() {
+                    e.insert(AnimationChain::<Key>::reset_after(pairs[0].0));
+                } else if pairs.len() % 2 == 0 {
+                    let mut chain = AnimationChain::<Key>::new();
+                    for (from, to) in pairs {
+                        chain.next_keys.insert(*from, *to);
+                    }
+                    e.insert(chain);
+                } else {
+                    let mut cb = AnimationChainBuilder::<Key>::new();
+                    for (from, to) in pairs {
+                        cb = cb.add(*from, *to);
+                    }
+                    e.insert(cb.build());
                 }
-                e.insert(cb.build());
             }
         }
         if let Some(o) = &cfg.second {
